@@ -1,5 +1,30 @@
 package main
 
+import "go/ast"
+
 // extra emits the facts beyond the C08 tables; extended property by property.
 func extra() {
+	// strvals limits
+	sv := consts(parse("pkg/strvals/parser.go"))
+	emitNat("maxIndex", need(sv, "MaxIndex"))
+	emitNat("maxNestedNameLevel", need(sv, "MaxNestedNameLevel"))
+	// order in which Options.MergeValues applies the value-flag families
+	emitList("valueFlagOrder", rangeOrder(funcDecl(parse("pkg/cli/values/options.go"), "Options", "MergeValues")))
+}
+
+// rangeOrder lists, in source order, the fields F for every top-level `for ... range recv.F`
+// statement of a function body.
+func rangeOrder(fd *ast.FuncDecl) []string {
+	var out []string
+	if fd == nil || fd.Body == nil {
+		return out
+	}
+	for _, st := range fd.Body.List {
+		if rs, ok := st.(*ast.RangeStmt); ok {
+			if sel, ok := rs.X.(*ast.SelectorExpr); ok {
+				out = append(out, sel.Sel.Name)
+			}
+		}
+	}
+	return out
 }
